@@ -75,6 +75,7 @@ type NATSession struct {
 	DestIP     uint32
 	DestPort   uint16
 	_          uint16
+	_          uint32 // struct nat_session is not packed: last_seen is 8-byte aligned (offset 24)
 	LastSeen   uint64
 	Created    uint64
 	PacketsOut uint64
@@ -85,6 +86,7 @@ type NATSession struct {
 	Protocol   uint8
 	Flags      uint8
 	IsHairpin  uint8
+	_          [4]byte // tail padding: sizeof(struct nat_session) == 80
 }
 
 // EIMKey is the key for Endpoint-Independent Mapping lookups
